@@ -83,6 +83,7 @@ class Exec:
         if isinstance(v, bool): return k(B(v), st)
         if isinstance(v, int): return k(I(v), st)
         if isinstance(v, str): return k(SPrim("str", S.str_lit(v)), st)
+        if isinstance(v, float): return k(SOpaqueObj(f"float {v}"), st)
         raise Unsupported(f"constant {v!r}")
 
     def ev_JoinedStr(self, e, st, k):
@@ -483,6 +484,8 @@ class Exec:
         if len(e.generators) != 1 or e.generators[0].ifs: raise Unsupported("dict comprehension form")
         g = e.generators[0]
         def got(it, st2):
+            if isinstance(it, SOpaqueObj):
+                return k(SOpaqueObj("dictcomp"), st2)
             fake = ast.For(target=g.target, iter=g.iter, body=[], orelse=[])
             st3, tsq, n = self.targets_for(fake, it, st2)
             i = S.fresh("i!dc", z3.IntSort())
